@@ -258,6 +258,22 @@ CLAIMED['C12'] = dict(
          '(the C10 inverse theorem is not proved). Trusted: Coq kernel, harness, dask reductions.',
     technique='Coq proof (fibre lemma, composition with C01 grid theorem, selected-rows enumeration for the reduced ancillaries) + vm_compute correspondence of the composed pipeline')
 
+CLAIMED['C19'] = dict(
+    text='Models of the three translators (Usid/Translate.v): ImageTranslator\'s transpose + flatten with the position descriptors [Y; X] (Y fastest); '
+         'write_sidpy_dataset after repairs d67b136 / 089deaa (spatial axes moved in front in their order, C-order flattening, Dimension lists in axis order '
+         'with slow_to_fast=True, placeholder for an empty side); ArrayTranslator\'s argument gate, which runs completely before the old file is removed. '
+         'Theorems: pixel (y, x) of any U x V image is element x*U + y and that row of the written position matrices carries X = x, Y = y (composition with '
+         'the C08 position theorem); for a labelled dataset with ANY number, sizes, typing and order of axes the element with full index idx is stored at '
+         '(C-order offset of its spatial part, of its spectral part) and the digits of those offsets give the parts back, so the ancillary matrices carry '
+         'idx at that row / column; the axes are only permuted; a rejected ArrayTranslator call touches no file; refutation witness for the reshape used '
+         'before the repair. Correspondence: flattened image + its position matrices; flattened labelled data + both index matrices and labels for every '
+         'ordering of up to 4 axes; gate outcome + whether a new file exists. Oracle: canonical layout, element-by-value coordinate check, parameters / '
+         'extra datasets / root attributes verbatim, no file produced or removed by a rejected call.',
+    design='5/C19',
+    note='Partial: binning (PIL resize) and normalisation are judged by the oracle only; PIL / numpy readers are trusted. The body of '
+         'ArrayTranslator.translate after the gate is write_main_dataset (C02). A constant image normalises to 0/0 = NaN (outside the property).',
+    technique='Coq proof (transpose/flatten lemma, N-D transpose + C-order offset theorem, composition with C08) + vm_compute correspondence on generated images and labelled datasets')
+
 NOT_YET = {}
 
 TITLES = {}
